@@ -57,6 +57,9 @@ class Query:
     offset: int | None = None
     # whether a `summarize` is part of this query (the GROUP BY list may be empty)
     aggregated: bool = False
+    # a grouped `summarize` whose grouping columns are all constants: there is one group,
+    # but none if the table is empty
+    constant_groups: bool = False
 
 
 class SqlImpl(TableImpl):
@@ -356,6 +359,11 @@ class SqlImpl(TableImpl):
 
         if query.group_by:
             sel = sel.group_by(*(sqa_expr[uid] for uid in query.group_by))
+        elif query.constant_groups and len(table.columns) > 0:
+            # Constants cannot be written into GROUP BY (an integer would be a column
+            # position). Group by an expression that is constant, too, but mentions a
+            # column, as some dialects require.
+            sel = sel.group_by(sqa.case((next(iter(table.columns)).is_(None), 0), else_=0))
 
         if query.having:
             sel = sel.having(*(cls.compile_col_expr(pred, sqa_expr) for pred in query.having))
@@ -504,11 +512,7 @@ class SqlImpl(TableImpl):
             }
             query.group_by.extend(col._uuid for col in query.partition_by if not types.is_const(col.dtype()))
             if query.partition_by and not query.group_by:
-                # Only constant grouping columns: they are not put into GROUP BY, but a
-                # grouped summarize of an empty table has no row.
-                non_empty = ColFn(ops.count_star) > LiteralCol(0)
-                non_empty.ftype(agg_is_window=False)
-                query.having.append(non_empty)
+                query.constant_groups = True
             # a grouping column whose name is reused by an aggregate is replaced by it
             overwritten = set(nd.names)
             query.select = [
